@@ -254,6 +254,22 @@ def run(ctx):
         ctx.case(('rand', tuple(beh)))
     ctx.sample({'random_history_with_forms': [[e['op'], e['x']] for e in rtraces[0]]})
     validate(ctx, U2, rtraces, instances, 'random')
+    # ---- binding demonstration: corrupt one recorded field of accepted histories; every copy must be rejected
+    if not ctx.violations:
+        import copy as _copy
+        base = [t for t in tr2 if len(t) >= 4][:4]
+        cor = []
+        c = _copy.deepcopy(base[0]); c[-1]['obs']['sel'][0] = 'K3p/9'; cor.append(('selection returns a key that is not in the universe', c))
+        c = _copy.deepcopy(base[1]); c[-1]['obs']['has'][0] = not c[-1]['obs']['has'][0]; cor.append(('membership flipped', c))
+        c = _copy.deepcopy(base[2]); c[-1]['obs']['fprs'] = c[-1]['obs']['fprs'][1:] if c[-1]['obs']['fprs'] else ['00']; cor.append(('one fingerprint missing', c))
+        c = _copy.deepcopy(base[3]); del c[0]; cor.append(('first load event dropped', c))
+        saved_v, saved_t = list(ctx.violations), ctx.traces
+        rj = validate(ctx, U, [x for _, x in cor], sorted(U.inst), 'selftest')
+        ctx.violations[:] = saved_v
+        ctx.traces = saved_t
+        if len({p[1] for p in rj}) != len(cor):
+            raise MachineryError('self-test C19: Trace_C19 accepted corrupted histories: rejected %s of %s' % (sorted({p[1] for p in rj}), [n for n, _ in cor]))
+        ctx.extra['selftest_corruptions_rejected'] = [n for n, _ in cor]
     ctx.extra['behaviours_exhaustive'] = len(set(behs))
     ctx.extra['behaviours_simulated'] = len(sims)
     ctx.extra['random_histories'] = len(rtraces)
